@@ -19,11 +19,13 @@ rule = ("scripts start with 'y begin'; stream 1 (exhaustive over the generated t
         "objects.  non-trivial = a script in which the code accepted at least one set that changed the dump, or a "
         "copy/reset that changed it, counted per distinct script")
 assumptions = [
-    "values reach the setters as text through mpt_object_set_string (separator argument NULL) or as src = NULL; "
-    "other convertable sources (numbers, iterators, metatypes) are not exercised",
+    "values reach the setters as text through mpt_object_set_string (separator argument NULL), as src = NULL, as typed "
+    "scalar values (y setv) or, for string properties, through a source that answers 's' only (y sets); iterators and "
+    "metatype sources are not exercised",
     "floating point texts are restricted to exactly representable decimal numerals (the model answers "
     "'unsupported' for inexact decimals, hex floats, inf/nan, subnormal results); strtof/strtod are trusted for those",
-    "libc: strtoumax/strtoimax grammar, isspace/isgraph in the C locale, strdup/realloc never fail",
+    "libc: strtoumax/strtoimax grammar, isspace/isgraph in the C locale; realloc/strdup fail only where 'y fail n' injects it "
+    "(string properties and the sibling copy; allocation failures inside other handlers are not modelled)",
     "a point given as one number repeats it for y (mpt_fpoint_set: second element MissingData = single value, "
     "ed1bd33/b88fb5d of the C19 worker)",
     "the S column (which property a name stands for, what kind of value it holds, its limits) comes from the hand-written "
